@@ -242,3 +242,71 @@ def stale_measurement_fields(repo):
         if missing or not impls:
             stale.append((fld, 'not assigned on every path of recv_reply, nor by send_init of %s' % ', '.join(missing[:4]) if impls else 'not assigned on every path of recv_reply'))
     return rr, sorted(fields), stale
+
+
+# host key blob layouts (RFC 4253 6.6, RFC 8709, OpenSSH PROTOCOL.certkeys): the string fields in front of the certificate's serial number
+BLOBS = {
+    'ssh-rsa': [('type', b'ssh-rsa'), ('e', b'\x01\x00\x01'), ('n', b'\x00' + b'\xc3' * 384)],
+    'ssh-ed25519': [('type', b'ssh-ed25519'), ('pk', b'\x11' * 32)],
+    'ssh-ed448': [('type', b'ssh-ed448'), ('pk', b'\x22' * 57)],
+    'ssh-rsa-cert-v01@openssh.com': [('type', b'ssh-rsa-cert-v01@openssh.com'), ('nonce', b'\x33' * 20), ('e', b'\x01\x00\x01'), ('n', b'\x00' + b'\xc3' * 512)],
+    'ssh-ed25519-cert-v01@openssh.com': [('type', b'ssh-ed25519-cert-v01@openssh.com'), ('nonce', b'\x33' * 20), ('pk', b'\x11' * 32)],
+}
+
+
+def blob_layout_problems(repo):
+    """recv_reply's walk over the host key blob, interpreted (sa/listinterp.py) with __get_bytes abstracted to "read the next string field":
+    for each supported key type the recorded key length must be the length of the key field of that type, and for certificates the CA parser
+    must be entered exactly at the serial number (all string fields in front of it consumed).  Returns (cases, [(type, message)])."""
+    from sa.listinterp import Interp
+    from sa.abseval import Opaque
+    from sa.core import call_name
+    rr = repo.func('kexdh', 'KexDH.recv_reply')
+    start = None
+    for i, st in enumerate(rr.body):
+        if isinstance(st, ast.Assign) and unparse(st.targets[0]) == 'ptr' and isinstance(st.value, ast.Constant) and st.value.value == 0 and i + 1 < len(rr.body) \
+                and 'hostkey_type' in unparse(rr.body[i + 1]) and '__get_bytes(hostkey' in unparse(rr.body[i + 1]):
+            start = i
+    if start is None:
+        raise AnalysisError('recv_reply: start of the host key blob walk (ptr = 0; hostkey_type, ... = __get_bytes(hostkey, ptr)) not found')
+    problems = []
+    for ktype, fields in BLOBS.items():
+        ca_calls = []
+
+        def hook(call, env, interp, fields=fields, ca_calls=ca_calls):
+            nm = call_name(call) or ''
+            if nm.endswith('__get_bytes') and len(call.args) == 2:
+                buf = unparse(call.args[0])
+                ptr = interp.value(call.args[1], env)
+                if buf != 'hostkey' or not isinstance(ptr, int):
+                    raise Unknown('__get_bytes on %s at a non-field position' % buf)
+                if 0 <= ptr < len(fields):
+                    return (True, (fields[ptr][1], len(fields[ptr][1]), ptr + 1))
+                return (True, (Opaque(), Opaque(), ptr + 1))
+            if nm.endswith('__parse_ca_key'):
+                ptr = interp.value(call.args[-1], env)
+                ca_calls.append(ptr)
+                return (True, ('<ca type>', 99))
+            return None
+        env = {'self': Opaque(), 'hostkey': Opaque(), 'payload': Opaque(), 'self.__hostkey_n_len': 0, 'self.__ca_key_type': '', 'self.__ca_n_len': 0, 'self.__hostkey_type': ''}
+        try:
+            finals = Interp(call_hook=hook).run(rr.body[start:], env)
+        except Unknown as e:
+            raise AnalysisError('recv_reply blob walk not interpretable for %s: %s' % (ktype, e))
+        if len(finals) != 1 or finals[0].get('<forks>'):
+            raise AnalysisError('recv_reply blob walk for %s depends on a condition the analysis does not model: %s' % (ktype, [f.get('<forks>') for f in finals][:2]))
+        fe = finals[0]
+        keyfield = [f for f in fields if f[0] in ('n', 'pk')][0]
+        got_len = fe.get('self.__hostkey_n_len')
+        if got_len != len(keyfield[1]):
+            problems.append((ktype, 'the recorded key length is %r bytes, the %s field of a %s blob has %d' % (got_len, keyfield[0], ktype, len(keyfield[1]))))
+        is_cert = '-cert-' in ktype
+        if is_cert:
+            if ca_calls != [len(fields)]:
+                problems.append((ktype, 'the CA parser is entered %s; the serial number follows the %d string fields %s, so the CA type and size %s' % (
+                    ('after %s string field(s)' % ca_calls[0]) if ca_calls else 'never', len(fields), [f[0] for f in fields], 'are read from the wrong bytes (no CA, or garbage, is recorded)' if ca_calls else 'are never recorded')))
+            elif fe.get('self.__ca_key_type') != '<ca type>' or fe.get('self.__ca_n_len') != 99:
+                problems.append((ktype, 'the CA type/size returned by the CA parser are not stored in the fields the getters read'))
+        elif ca_calls:
+            problems.append((ktype, 'the CA parser runs for a plain %s key' % ktype))
+    return rr, len(BLOBS), problems
